@@ -391,8 +391,11 @@ Failing(V, kind) == UNION {{<<p, n>> : n \in {x \in V[p].running : x \in GNodes(
 SerrRan(V) == \E p \in DOMAIN V : V[p].tainted # {} \/ V[p].poisonSrc # {}
 SpanicRan(V) == \E p \in DOMAIN V : \E n \in V[p].tainted \cup V[p].poisonSrc : FailKind(V[p].g, n) = "spanic"
 CancelRan(V) == \E p \in DOMAIN V : V[p].canceled
+\* (a node body that recovers from a panic raised inside its own ProcessState callback: the state lock must have been released)
+CsPanicIn(V) == \E p \in DOMAIN V : \E n \in GNodes(V[p].g) : FailKind(V[p].g, n) = "cspanic"
+HangWhy(V) == IF CsPanicIn(V) THEN "state-access-blocked-after-callback-panic" ELSE "run-hangs"
 ErrorWhy(gg, V, e) == LET c == e.class IN
-  IF c = "hang" THEN "run-hangs"
+  IF c = "hang" THEN HangWhy(V)
   \* (a panic raised by a lazily evaluated convert function of a node's output stream is only promised to be contained where a
   \* stream-forwarding goroutine evaluates it; when the run loop itself reads that stream the outcome is not judged)
   ELSE IF c = "escaped-panic" THEN (IF SpanicRan(V) THEN "ok" ELSE "panic-escaped-the-run")
@@ -417,7 +420,7 @@ ErrorWhy(gg, V, e) == LET c == e.class IN
        (IF ~CancelRan(V) THEN "canceled-without-cancel" ELSE IF ~e.is THEN "context-error-not-matchable" ELSE "ok")
   ELSE IF c \in {"stuck", "endskipped"} THEN
        (IF \E p \in DOMAIN V : DeadEnd(V[p]) THEN "ok" ELSE "dead-end-error-not-expected-in-state-" \o V[""].st)
-  ELSE IF c = "hang" THEN "run-hangs"
+  ELSE IF c = "hang" THEN HangWhy(V)
   \* (a panic raised by a lazily evaluated convert function of a node's output stream is only promised to be contained where a
   \* stream-forwarding goroutine evaluates it; when the run loop itself reads that stream the outcome is not judged)
   ELSE IF c = "escaped-panic" THEN (IF SpanicRan(V) THEN "ok" ELSE "panic-escaped-the-run")
